@@ -207,9 +207,31 @@ var pktTargets = []pktTarget{
 		ch := lldpTLV(1, append([]byte{byte(g.Int("chsub", 1, 7))}, g.Bytes("chid", g.Int("chlen", 1, 20))...))
 		po := lldpTLV(2, append([]byte{byte(g.Int("posub", 1, 7))}, g.Bytes("poid", g.Int("polen", 1, 20))...))
 		tt := lldpTLV(3, g.Bytes("ttl", 2))
+		// optional TLVs behind the three mandatory ones (port description, system name, capabilities, management
+		// address, organizationally specific with its 3-byte OUI + subtype), closed by the end-of-LLDPDU TLV:
+		// every LLDP frame on a real link has them, whatever a decoder makes of them
+		var opt []byte
+		var optAt []int
+		for i, k := 0, g.Int("lldp_optional_tlvs", 0, 4); i < k; i++ {
+			ty := []int{4, 5, 6, 7, 8, 127, 127, 127}[g.Pick("lldp_opt_type", 8)]
+			n := g.Int("lldp_opt_len", 0, 24)
+			if ty == 127 && g.Bool("lldp_org_short") {
+				n = g.Int("lldp_org_len", 0, 6)
+			}
+			optAt = append(optAt, len(opt))
+			opt = append(opt, lldpTLV(ty, g.Bytes("lldp_opt_body", n))...)
+		}
+		if len(optAt) > 0 || g.Bool("lldp_end_tlv") {
+			opt = append(opt, 0, 0)
+		}
+		tt = append(tt, opt...)
 		b := append(append(append([]byte{}, ch...), po...), tt...)
 		b = append(b, 0, 0)
-		return b, []spec.Slot{sl(0, 2, "len", "lldp.chassis.hdr"), sl(len(ch), 2, "len", "lldp.port.hdr"), sl(len(ch)+len(po), 2, "len", "lldp.ttl.hdr")}
+		slots := []spec.Slot{sl(0, 2, "len", "lldp.chassis.hdr"), sl(len(ch), 2, "len", "lldp.port.hdr"), sl(len(ch)+len(po), 2, "len", "lldp.ttl.hdr")}
+		for _, at := range optAt {
+			slots = append(slots, sl(len(ch)+len(po)+4+at, 2, "len", "lldp.optional.hdr"))
+		}
+		return b, slots
 	}, func(b []byte) error { _, err := new(protocol.LLDP).Write(b); return err }},
 	{"ChassisTLV.Write", func(rt *rapid.T, g *gen.G) ([]byte, []spec.Slot) {
 		return lldpTLV(1, append([]byte{byte(g.Int("chsub", 1, 7))}, g.Bytes("chid", g.Int("chlen", 0, 40))...)), []spec.Slot{sl(0, 2, "len", "lldp.chassis.hdr")}
